@@ -277,3 +277,105 @@ def evaluate(nodes, values, table, mode):
         else:
             raise KeyError(node)
     return v
+
+
+# ---------------------------------------------------- uncertainties (first order) ---
+# How often an input occurs in the documented formula of a rule (1 unless stated): the energy-transfer formulas
+# contain the fixed energy twice (E itself and t0 = L sqrt(m / 2E)).
+RULE_USES = {('energy_transfer', 'incident_energy'): 2, ('energy_transfer', 'final_energy'): 2}
+
+
+def occurrences(target, leaf, present, table):
+    """How often the supplied coordinate `leaf` occurs in the formula for `target` written out in terms of the
+    supplied coordinates.  0: the target does not depend on it; 1: first-order propagation of its uncertainty is
+    defined without any assumption about correlations; > 1: an operand-by-operand propagation (scipp) is
+    ambiguous, the result depends on how the formula is arranged."""
+    present = set(present)
+
+    def occ(name):
+        if name in present:
+            return int(name == leaf)
+        node = node_of(name)
+        return sum(RULE_USES.get((node, inp), 1) * occ(inp) for inp in table[node])
+
+    return occ(target)
+
+
+def _partial(name, inp, inputs, v, mode):
+    """d name / d inp of the documented formula of the rule (name <- inputs), at the evaluated values `v`
+    (fixed units of evaluate()).  KeyError where the formula is not differentiated here (angles, vectors)."""
+    c = si.constants()
+    h, m = c['h'], c['m_n']
+    meV = si.ld(si.E_CHARGE) / 1000
+    ang, us = LD('1e-10'), LD('1e-6')
+    y = v[name]
+    if name == 'Ltotal' and inputs == ('L1', 'L2'):
+        return LD(1)
+    if name in ('wavelength', 'dspacing') and inp in ('tof', 'wavelength'):
+        return y / v[inp]            # proportional to tof resp. wavelength
+    if name in ('wavelength', 'dspacing') and inp in ('Ltotal', 'Q'):
+        return -y / v[inp]           # inversely proportional
+    if name in ('wavelength', 'dspacing') and inp == 'energy':
+        return -y / (2 * v[inp])     # ~ energy^(-1/2)
+    if name == 'energy' and inp == 'tof':
+        return -2 * y / v[inp]       # ~ tof^-2
+    if name == 'energy' and inp == 'Ltotal':
+        return 2 * y / v[inp]        # ~ Ltotal^2
+    if name == 'energy' and inp == 'wavelength':
+        return -2 * y / v[inp]       # ~ wavelength^-2
+    if name in ('Q', 'Qx', 'Qy', 'Qz') and inp == 'wavelength':
+        return -y / v[inp]
+    if name == 'energy_transfer' and inp in ('tof', 'L1', 'L2'):
+        t = v['tof'] * us
+        if mode == 'direct_inelastic':
+            k = np.sqrt(m / (2 * v['incident_energy'] * meV))
+            dt = t - v['L1'] * k
+            return {'tof': m * v['L2'] ** 2 / dt ** 3 * us, 'L2': -m * v['L2'] / dt ** 2,
+                    'L1': -m * v['L2'] ** 2 / dt ** 3 * k}[inp] / meV
+        k = np.sqrt(m / (2 * v['final_energy'] * meV))
+        dt = t - v['L2'] * k
+        return {'tof': -m * v['L1'] ** 2 / dt ** 3 * us, 'L1': m * v['L1'] / dt ** 2,
+                'L2': m * v['L1'] ** 2 / dt ** 3 * k}[inp] / meV
+    if name == 'time_at_sample':
+        if inp in ('tof', 'pulse_time'):
+            return LD(1)
+        if inp == 'L2':
+            return -m * v['wavelength'] * ang / (h * us)
+        if inp == 'wavelength':
+            return -v['L2'] * m * ang / (h * us)
+    raise KeyError((name, inp))
+
+
+def derivative(target, leaf, present, table, v, mode):
+    """d target / d leaf (chain rule over the derivation, all paths) at the evaluated values `v`."""
+    present = set(present)
+
+    def D(name):
+        # None: does not depend on the leaf
+        if name in present:
+            return LD(1) if name == leaf else None
+        inputs = table[node_of(name)]
+        out = None
+        for inp in inputs:
+            d = D(inp)
+            if d is not None:
+                term = _partial(name, inp, inputs, v, mode) * d
+                out = term if out is None else out + term
+        return out
+
+    return D(target)
+
+
+def first_order_variance(target, leaf, present, table, v, mode, variances):
+    """(variance of `target`, decided mask) when only `leaf` carries variances: (d target / d leaf)^2 var(leaf),
+    element by element, from the analytic derivatives of the documented formulas at the long-double values `v`
+    (the result of evaluate()).  Undecided: nothing finite, or energy transfer within 1e-3 of the singularity
+    t = t0 (there the float64 rounding of t - t0 is amplified without bound)."""
+    with np.errstate(all='ignore'):
+        d = derivative(target, leaf, present, table, v, mode)
+        d = np.asarray(LD(0) if d is None else d, dtype=LD)
+        want = d * d * np.asarray(variances, dtype=LD)
+        decided = np.isfinite(want.astype(np.float64))
+        if '_t0_over_t' in v:
+            decided = decided & (np.abs(1 - v['_t0_over_t']) > LD('1e-3'))
+        return want, decided
